@@ -184,6 +184,62 @@ func init() {
 			e.modelsUsed["math.Pow = computed concretely"] = true
 			return e.ts.FP(math.Pow(math.Float64frombits(a), math.Float64frombits(b)))
 		},
+		"math.Log": func(e *Engine, st *State, args []Value) Value {
+			a, ok := st.known(args[0].(*Term))
+			if !ok {
+				panic(unsupported("math.Log with a symbolic argument"))
+			}
+			e.modelsUsed["math.Log = computed concretely (same machine function as the native build)"] = true
+			return e.ts.FP(math.Log(math.Float64frombits(a)))
+		},
+		"math.Log2": func(e *Engine, st *State, args []Value) Value {
+			a, ok := st.known(args[0].(*Term))
+			if !ok {
+				panic(unsupported("math.Log2 with a symbolic argument"))
+			}
+			e.modelsUsed["math.Log2 = computed concretely (same machine function as the native build)"] = true
+			return e.ts.FP(math.Log2(math.Float64frombits(a)))
+		},
+		"math.Log10": func(e *Engine, st *State, args []Value) Value {
+			a, ok := st.known(args[0].(*Term))
+			if !ok {
+				panic(unsupported("math.Log10 with a symbolic argument"))
+			}
+			e.modelsUsed["math.Log10 = computed concretely (same machine function as the native build)"] = true
+			return e.ts.FP(math.Log10(math.Float64frombits(a)))
+		},
+		"math.Sqrt": func(e *Engine, st *State, args []Value) Value {
+			a, ok := st.known(args[0].(*Term))
+			if !ok {
+				panic(unsupported("math.Sqrt with a symbolic argument"))
+			}
+			e.modelsUsed["math.Sqrt = computed concretely (same machine function as the native build)"] = true
+			return e.ts.FP(math.Sqrt(math.Float64frombits(a)))
+		},
+		"math.Exp": func(e *Engine, st *State, args []Value) Value {
+			a, ok := st.known(args[0].(*Term))
+			if !ok {
+				panic(unsupported("math.Exp with a symbolic argument"))
+			}
+			e.modelsUsed["math.Exp = computed concretely (same machine function as the native build)"] = true
+			return e.ts.FP(math.Exp(math.Float64frombits(a)))
+		},
+		"math.Round": func(e *Engine, st *State, args []Value) Value {
+			a, ok := st.known(args[0].(*Term))
+			if !ok {
+				panic(unsupported("math.Round with a symbolic argument"))
+			}
+			e.modelsUsed["math.Round = computed concretely (same machine function as the native build)"] = true
+			return e.ts.FP(math.Round(math.Float64frombits(a)))
+		},
+		"math.Trunc": func(e *Engine, st *State, args []Value) Value {
+			a, ok := st.known(args[0].(*Term))
+			if !ok {
+				panic(unsupported("math.Trunc with a symbolic argument"))
+			}
+			e.modelsUsed["math.Trunc = computed concretely (same machine function as the native build)"] = true
+			return e.ts.FP(math.Trunc(math.Float64frombits(a)))
+		},
 		"time.AfterFunc": func(e *Engine, st *State, args []Value) Value {
 			e.modelsUsed["time.AfterFunc = timer that never fires inside a step"] = true
 			return PtrV{}
